@@ -374,7 +374,7 @@ func main() {
 	slog.SetDefault(slog.New(slog.NewTextHandler(io.Discard, nil)))
 	log := mon.NewLog()
 	svc.SetSink(log)
-	n := r.N(2000, 150000)
+	n := r.N(2000, 100000)
 	workers := 2
 	if r.Thorough() {
 		workers = min(16, runtime.NumCPU())
